@@ -219,6 +219,22 @@ def uniq_prop_check(ctx, c, outs):
     u, idx, inv, serr = unpack(res, c)
     if serr:
         return "structure: " + serr
+    # 0. the result is an object of the same kind: same class and the same symmetry / phase (an orientation is only "one
+    # of the input elements" together with the symmetry it is an orientation of)
+    if type(u) is not type(obj):
+        return f"kind: unique() of a {type(obj).__name__} returned a {type(u).__name__}"
+    # (an empty input has no element whose meaning could change: orix returns the default symmetry there, not checked)
+    if cls in ("Orientation", "Misorientation") and obj.size:
+        s_in = obj.symmetry if isinstance(obj.symmetry, tuple) else (obj.symmetry,)
+        s_out = u.symmetry if isinstance(u.symmetry, tuple) else (u.symmetry,)
+        if len(s_in) != len(s_out) or any(a.name != b.name or a.size != b.size or not np.allclose(a.data, b.data)
+                                           for a, b in zip(s_in, s_out)):
+            return (f"kind: unique() of a {cls} with symmetry {[a.name for a in s_in]} returned elements with symmetry "
+                    f"{[b.name for b in s_out]}")
+    if cls == "Miller" and obj.size:
+        if u.phase.point_group.name != obj.phase.point_group.name or \
+                not np.allclose(u.phase.structure.lattice.base, obj.phase.structure.lattice.base):
+            return "kind: unique() of a Miller returned vectors with another phase (point group / lattice)"
     out = u.data.reshape(-1, rows.shape[1])
     oflags = u.improper.reshape(-1) if cls in ROT else np.zeros(len(out), bool)
     dropped = np.array([cls in BASE and bool(np.all(np.abs(r) <= ZERO_TOL)) for r in rows], bool)
